@@ -14,7 +14,7 @@ from ..lin import Lin
 from ..pathflags import BudgetExceeded, run_adaptive
 from ..flags import TFlags
 from . import prim_common
-from .. import frontend, api, par
+from .. import frontend, api, par, siblings
 from .c05 import convention, STATUS_OK, describe, OPAQUE
 from . import dest_common as dc
 
@@ -167,9 +167,10 @@ def run(ck):
     pr = pointer_rule(ck, prog, [n for n in POINTER_RETURNING if n in prog.funcs], ck.report)
     prim = prim_common.primitive_rule(ck, prog, "C06", ck.report)
     ltab = length_table_rule(ck, prog, ck.report)
+    sib = siblings.rule(prog, ck.report, "C06", broken=ck.fail_broken)
     fx = selftest(ck)
     fx["primitives"] = prim_common.selftest(ck)
-    cov = dict(returned_pointers=pr, primitives=prim, length_tables=ltab, explanation="All paths of the %d non-truncating copy/concatenate functions: %d success-return path classes, none of which follows an edge on which the counter initialised "
+    cov = dict(returned_pointers=pr, primitives=prim, length_tables=ltab, symmetric_copy_loop_pairs=sib, explanation="All paths of the %d non-truncating copy/concatenate functions: %d success-return path classes, none of which follows an edge on which the counter initialised "
                "from dmax is zero; the budget-exhausted exits (present in every function: the rule is not vacuous) all reach error returns. Returned pointers: on every success path of stpcpy_s/stpncpy_s "
                "the returned pointer equals the position of the terminating null tracked by the destination typestate. Primitives: in each of the 7 mem_prim_* routines, on every path to the return the stores "
                "through dest tile dest[0 .. len*size) exactly once (alignment prologue, unrolled word/element body, tail), each copied element comes from the same offset of src, no count subtraction can wrap; "
@@ -204,4 +205,10 @@ def selftest(ck):
     out["length_tables"] = dict(pairs=sorted(lt), reports=sorted(got))
     if sorted(got) != ["C06:length-table-disagrees:fx6_lens_stale:2"] or len(lt) != 2:
         ck.fail_broken("fixture c06.c: length-table rule gave %s over %s" % (sorted(got), sorted(lt)))
+    for prop, want in (("C06", ["C06:sibling-loops-disagree:fx6_sym_dropped_budget:n"]), ("C02", ["C02:sibling-loops-disagree:fx6_sym_dropped_limit:n"])):
+        got = []
+        np_ = siblings.rule(prog, lambda key, *a, **k: got.append(key), prop, funcs=[prog.funcs[n] for n in ("fx6_sym_good", "fx6_sym_dropped_limit", "fx6_sym_dropped_budget")], floor=0)
+        out["siblings_" + prop] = dict(pairs=np_, reports=got)
+        if got != want or np_ != 3:
+            ck.fail_broken("fixture c06.c: sibling-loop rule (%s) gave %s over %d pairs, expected %s over 3" % (prop, got, np_, want))
     return out
